@@ -55,7 +55,7 @@ type Job struct {
 	Props     []string // active assertion-id prefixes
 	WitEvery  int      // sample every k-th completed path as a witness
 	MaxPerKey int
-	Stub      func(x *Exec, name string, args []Val) (Val, bool)
+	Redirect  map[string]string // qualified function name -> harness function that models it
 	Solver    string // "" = default (z3); "cvc5" for floating-point heavy jobs
 
 	idx         int
@@ -319,7 +319,7 @@ func (x *Exec) initWorker() {
 	if P.cli != nil {
 		initPkgs = append(initPkgs, P.cli)
 	}
-	for _, extra := range []string{"errors", "sort", "strings", "strconv", "unicode"} {
+	for _, extra := range []string{"errors", "sort", "strings", "strconv", "unicode", "os", "flag", "io"} {
 		if p := P.prog.ImportedPackage(extra); p != nil {
 			// globals only (zero-valued); their init functions are not run
 			for _, m := range p.Members {
